@@ -9,7 +9,8 @@ ops (one per line; strings = code points joined by `,`, the empty string is `e`)
         filter = entries joined by `;`, `none` = no Filter element, `-` = no entry
   `renew <ref|-> <path|-> <expires|->` | `status <ref|-> <path|->` | `unsub <ref|-> <path|->`
                                                                               -> `remaining <r>` | `unsubscribed` | `fault`
-  `notify <action>` | `stop <0|1>`                                            -> `sent <n|e>:<sub>:<addr>:<outcome> …`
+  `notify <action> <ov>` | `stop <0|1> <ov>`                                  -> `sent <n|e>:<sub>:<addr>:<outcome> …`
+        ov = per-delivery outcomes observed on the implementation `sub:outcome,…` or `-` (then the standing `mode` of the address)
   `tick <dt>` | `mode <addr> <outcome>` | `hk`                                -> `ok`
 every answer is followed by ` | alive=<ids> known=<ids>`: the reference monitor's view after the op (fed with the model's answers)
 -/
@@ -32,11 +33,18 @@ def bool? (w : String) : Option Bool :=
 
 def outcome? : String → Option Outcome
   | "ok" => some .ok | "httpError" => some .httpError | "refused" => some .refused
-  | "notConnected" => some .notConnected | "timeout" => some .timeout | _ => none
+  | "notConnected" => some .notConnected | "timeout" => some .timeout | "parseError" => some .parseError | _ => none
 
 def Outcome.str : Outcome → String
   | .ok => "ok" | .httpError => "httpError" | .refused => "refused"
-  | .notConnected => "notConnected" | .timeout => "timeout"
+  | .notConnected => "notConnected" | .timeout => "timeout" | .parseError => "parseError"
+
+/-- per-delivery outcomes `sub:outcome,sub:outcome` (`-` = none) -/
+def overrides? (w : String) : Option (List (Nat × Outcome)) :=
+  if w == "-" then some [] else
+  (w.splitOn ",").mapM (fun e => match e.splitOn ":" with
+    | [i, o] => do pure (← i.toNat?, ← outcome? o)
+    | _ => none)
 
 def Msg.str (m : Msg) : String :=
   (match m.kind with | .notification _ => "n" | .subscriptionEnd => "e") ++ s!":{m.sub}:{m.addr}:{m.outcome.str}"
@@ -57,11 +65,11 @@ def parseOp (ws : List String) : Option Op :=
   | ["renew", r, p, e] => do pure (.renew (← optNat? r, ← optNat? p) (← optNat? e))
   | ["status", r, p] => do pure (.getStatus (← optNat? r, ← optNat? p))
   | ["unsub", r, p] => do pure (.unsubscribe (← optNat? r, ← optNat? p))
-  | ["notify", a] => do pure (.notify (← str? a))
+  | ["notify", a, ov] => do pure (.notify (← str? a) (← overrides? ov))
   | ["tick", dt] => do pure (.tick (← dt.toNat?))
   | ["mode", a, o] => do pure (.setOutcome (← a.toNat?) (← outcome? o))
   | ["hk"] => some .housekeeping
-  | ["stop", b] => do pure (.stop (← bool? b))
+  | ["stop", b, ov] => do pure (.stop (← bool? b) (← overrides? ov))
   | _ => none
 
 def parseCfg (ws : List String) : Option Cfg :=
